@@ -250,6 +250,21 @@ class BufMachine(Machine):
             gop = self.global_ops.get(name)
             if gop is not None and gop.type.layout != rt.layout:
                 self.problems.append(("get_global-layout-differs-from-global", f"@{name}: {rt.layout} vs {gop.type.layout}"))
+                # the consumers interpret the stored bytes through the layout of the get_global's type: logical element idx of the
+                # result is the element of the global that lies at address addr_result(idx)
+                try:
+                    lg, lr = tsl_recipe_of(gop.type.layout), tsl_recipe_of(rt.layout)
+                except Unsupported:
+                    return [whole(buf)]
+                ag = lambda r_, idx: T.addr(r_, idx) if r_ is not None else int(np.ravel_multi_index(idx, buf.shape))  # noqa: E731
+                where = {ag(lg, idx): k for k, idx in enumerate(np.ndindex(*buf.shape))}
+                view_idx = []
+                for idx in np.ndindex(*buf.shape):
+                    k = where.get(ag(lr, idx))
+                    if k is None:
+                        return [whole(buf)]
+                    view_idx.append(k)
+                return [View(buf, buf.shape, np.array(view_idx, dtype=np.int64))]
             return [whole(buf)]
         if n == "memref.subview":
             return [self._subview(op, operands)]
